@@ -1,4 +1,5 @@
 import Gmx.Lemmas.PerpValue
+import Gmx.Lemmas.FundingBacked
 import Gmx.Props.C12
 /-!
 # C08 — market token accounting is conserved and funding payouts stay backed
@@ -8,13 +9,18 @@ Statements are about the faithful position model `Gmx.Model.Perp` (tied to the i
 by the stateful `perp` engine, whose harness additionally checks the ledger identity and the
 refined funding invariant after EVERY operation of its histories).
 
-Proved here: the ledger step of an increase; conservation inside the collateral processor's
-payment routine; fee-state updates do not move the ledger; the packing of funding indices
-rounds the payer up and the receiver down, so one funding update never promises more than it
-charges; the literal clause "collected − claimed ≥ 0" is false (`claim_before_collect_witness`,
-known finding F-C08). Also proved: the ledger step of a decrease through EVERY collateral-processor
-branch and its lift to histories (`ledger_step_decrease`, `ledger_step`, `ledger_history`), which
-exposed a dust-level defect (F-C08b, `fee_dust_witness`).
+Proved here: the ledger step of an increase and of a decrease through EVERY collateral-processor
+branch, lifted to histories (`ledger_step_increase`, `ledger_step_decrease`, `ledger_step`,
+`ledger_history`) — which exposed a dust-level defect (F-C08b, `fee_dust_witness`); conservation
+inside the payment routine; fee-state updates move no tokens; packing rounds the payer up and the
+receiver down; **`funding_backed`**: the potential argument over `FundSys` — histories of funding
+updates, settlements with size changes and openings for one collateral token, built from the same
+`packFunding` / `unpackFunding` as the faithful model; the literal clause "collected − claimed ≥ 0"
+is false (`claim_before_collect_witness`, F-C08).
+Still open (named): `psys_simulates_fundsys` — that a `PSys` history of the faithful model without
+reported funding shortfall projects, per collateral token, onto a `FundSys` history (funding value
+attribution of `nextFundingAmounts`, settlement inside `positionFees`); the harness oracle checks
+the refined invariant on the implementation after every operation.
 -/
 namespace Gmx.C08
 open Gmx Gmx.Perp Gmx.Lem
@@ -256,6 +262,27 @@ theorem pending_rounding {W U adj latest snap size r : Nat} :
     simp only [Bool.false_eq_true, if_false] at hr
     subst hr
     exact Nat.div_mul_le_self _ _
+
+/-- **funding is backed** (refined clause, potential argument of DESIGN Appendix E) over histories
+of funding updates (either side paying, any funding value and price), settlements with size
+changes (increase / decrease / close, paid in full) and position openings, per collateral token:
+everything claimed so far plus everything claimable now (integer amounts, rounded down) is covered
+by what was collected plus the exact pending payable funding of the positions not yet touched —
+all scaled by `adjustment·UNIT`. In particular a deficit `claimed − collected` never exceeds the
+pending payable funding (the predicate of known finding F-C08). -/
+theorem funding_backed (W U adj : Nat) (ops : List FundOp) :
+    (adj * U) * ((FundSys.init.run W U adj ops).claimed + pendClaimInt W U adj (FundSys.init.run W U adj ops).C (FundSys.init.run W U adj ops).pos)
+      ≤ (adj * U) * (FundSys.init.run W U adj ops).collected + pendPay (FundSys.init.run W U adj ops).F (FundSys.init.run W U adj ops).pos ∧
+    (adj * U) * (FundSys.init.run W U adj ops).claimed
+      ≤ (adj * U) * (FundSys.init.run W U adj ops).collected + pendPay (FundSys.init.run W U adj ops).F (FundSys.init.run W U adj ops).pos := by
+  obtain ⟨hpot, _⟩ := fund_inv_run W U adj ops _ (fund_inv_init U adj)
+  have := pendClaimInt_le W U adj (FundSys.init.run W U adj ops).C (FundSys.init.run W U adj ops).pos
+  rw [Nat.mul_add]
+  constructor <;> omega
+
+/-- one step of a funding history keeps the potential invariant (any state, not only reachable). -/
+theorem funding_backed_step (W U adj : Nat) (s : FundSys) (o : FundOp) (h : s.Inv U adj) : (s.step W U adj o).Inv U adj :=
+  fund_inv_step W U adj s o h
 
 /-- **negation of the literal clause** "the funding residual `collected − claimed` never becomes
 negative": a long (20 USD) and a short (10 USD, the receiver) are opened with zero funding paid,
